@@ -3,6 +3,7 @@
   a "good call" succeeds on a leaf, is again a good call on a nested tensordict, and is what the batch arithmetic produces.
 -/
 import TdVerif.Lemmas.C02Meta
+import TdVerif.Lemmas.C02Expand
 
 namespace TdVerif.C02
 variable {α : Type}
@@ -121,6 +122,39 @@ theorem goodCall_nested (call : LeafCall) (bs bs' : Shape) (g : GoodCall call bs
     simp only [opOfCall, opMeta, hdrop]
     unfold viewMeta
     simp only [natsToInts_any_neg, natsToInts_toNat, Bool.false_eq_true, if_false, bind, Except.bind, pure, Except.pure, hne2]
+
+  | expand _ _ hl hc =>
+    -- the nested tensordict is expanded to `bs' ++ ext`: its own extra dims are appended to the target shape
+    have hsum : bs'.length + ext.length - (bs.length + ext.length) = bs'.length - bs.length := by omega
+    have hc2 : ∀ i, i < (bs ++ ext).length →
+        (bs ++ ext).getD i 0 = 1 ∨ (bs' ++ ext).getD ((bs' ++ ext).length - (bs ++ ext).length + i) 0 = (bs ++ ext).getD i 0 := by
+      intro i hi
+      simp only [List.length_append, hsum]
+      by_cases hib : i < bs.length
+      · have := hc i hib
+        have e1 : (bs ++ ext).getD i 0 = bs.getD i 0 := by
+          simp [List.getD_eq_getElem?_getD, List.getElem?_append_left hib]
+        have e2 : (bs' ++ ext).getD (bs'.length - bs.length + i) 0 = bs'.getD (bs'.length - bs.length + i) 0 := by
+          simp [List.getD_eq_getElem?_getD, List.getElem?_append_left (show bs'.length - bs.length + i < bs'.length by omega)]
+        rw [e1, e2]; exact this
+      · right
+        have e1 : (bs ++ ext).getD i 0 = ext.getD (i - bs.length) 0 := by
+          simp [List.getD_eq_getElem?_getD, List.getElem?_append_right (Nat.le_of_not_lt hib)]
+        have e2 : (bs' ++ ext).getD (bs'.length - bs.length + i) 0 = ext.getD (i - bs.length) 0 := by
+          rw [List.getD_eq_getElem?_getD, List.getElem?_append_right (by omega)]
+          rw [show bs'.length - bs.length + i - bs'.length = i - bs.length by omega, ← List.getD_eq_getElem?_getD]
+        rw [e1, e2]
+    have hop : opOfCall (.expand bs' bs.length) (bs ++ ext) = .expand (natsToInts (bs' ++ ext)) := by
+      simp only [opOfCall, hlen, Nat.add_sub_cancel_left]
+      by_cases he : ext.length > 0
+      · simp only [he, if_true]
+        congr 2
+        rw [show bs.length + ext.length - ext.length = bs.length by omega]; simp
+      · have : ext = [] := List.eq_nil_of_length_eq_zero (by omega)
+        subst this; simp
+    have hm := expandMeta_nats (bs' ++ ext) (bs ++ ext) nm2 (by simp; omega) hc2
+    refine ⟨nm2.map (fun l => List.replicate ((bs' ++ ext).length - (bs ++ ext).length) none ++ l),
+      .expand (bs' ++ ext) (bs ++ ext).length, by simp only [hop, opMeta, hm], GoodCall.expand _ _ (by simp; omega) hc2⟩
 
 /-- G3: whatever the batch arithmetic of transpose / unsqueeze / squeeze(dim) / flatten accepts (without returning `self`)
 is a good call for the batch size it computed -/
@@ -267,6 +301,34 @@ theorem goodCall_of_meta_view (v : Bool) (shape : List Int) (bs bs' : Shape) (nm
     | ok sh => simp only [hi] at h; exact key sh h
   · simp only [hneg, Bool.false_eq_true, if_false] at h
     exact key _ h
+
+
+variable {α : Type} in
+theorem goodCall_of_meta_expand (shape : List Int) (bs bs' : Shape) (nm nm' : Names) (call : LeafCall)
+    (h : opMeta (.expand shape) bs nm = .ok (some (bs', nm', call))) : GoodCall call bs bs' := by
+  simp only [opMeta] at h
+  unfold expandMeta at h
+  simp only [bind, Except.bind, pure, Except.pure, throw, throwThe, MonadExceptOf.throw] at h
+  by_cases h1 : shape.length < bs.length
+  · rw [if_pos h1] at h; cases h
+  rw [if_neg h1] at h
+  cases hr : expandResolve bs shape with
+  | error e => simp [hr] at h
+  | ok sh =>
+    simp only [hr] at h
+    have hlen : sh.length = shape.length := ((expandResolve_eq_rule bs shape sh).1 hr).1
+    have hl : bs.length ≤ sh.length := by omega
+    by_cases h2 : ((bs.zip (sh.drop (sh.length - bs.length))).any (fun x => decide (x.1 ≠ 1 ∧ x.2 ≠ x.1))) = true
+    · rw [if_pos h2] at h; cases h
+    rw [if_neg h2] at h
+    simp only [Except.ok.injEq, Option.some.injEq, Prod.mk.injEq] at h
+    obtain ⟨rfl, _, rfl⟩ := h
+    have hchk := (expand_check_iff bs sh hl).1 (by simpa using h2)
+    refine GoodCall.expand sh bs hl ?_
+    intro i hi
+    have := hchk (sh.length - bs.length + i) (by omega) (by omega)
+    rw [show sh.length - bs.length + i - (sh.length - bs.length) = i by omega] at this
+    exact this
 
 
 end TdVerif.C02
